@@ -11,8 +11,8 @@ SIZES = {"quick": 200, "thorough": 3000}
 RULE = ("proof: of the reference semantics (Props/C14.lean) — the multiset of solutions is invariant under any re-partition of "
         "the scanned triples over graphs, a consistent (injective) renaming of bindings renames columns and nothing else, "
         "without OPTIONAL growing data never lowers the multiplicity of a solution, ORDER BY keys that are a total order on "
-        "the rows give one sequence for every arrival order. Clause-order invariance is proved only for one join step "
-        "(clause_order_partial). Tie: metamorphic three-way runs — for each generated store (3-20 distinct triples laid out "
+        "the rows give one sequence for every arrival order, every permutation of the clauses of a pattern without OPTIONAL "
+        "and without row-bounded predicates gives the same multiset of result rows (clause_order_invariant). Tie: metamorphic three-way runs — for each generated store (3-20 distinct triples laid out "
         "as 1 graph, 2 and 3 disjoint parts, and a superset graph) and each base SELECT (1-4 clauses, OPTIONAL in a third, "
         "aliases, bounds; no LIMIT/FILTER) the variants {other chanSize/bulkSize/GOMAXPROCS, bijective renaming incl. "
         "permuting the names, FROM over the 2- and 3-part layouts, permuted clauses (no OPTIONAL), superset graph (no OPTIONAL), "
